@@ -1,12 +1,54 @@
 from vlib import H
 PROPERTY = 'C18'
 LEVEL = 'model_checking'
-CLAIM = ('draft')
-INT = ['cvc5int', 'cvc5int-di', 'cvc5int-bw', 'default']
+CLAIM = ('Real UTXO-encoding code executed symbolically against reference coders written from the format descriptions in compressor.h / serialize.h. '
+         '(1) CompressAmount / DecompressAmount (compressor.cpp): for every amount in [0, 21e14] (amounts constructed as (10m+d)*10^e resp. m*10^9, e = 0..9 one query each, m and d symbolic: every amount has exactly one such form) '
+         'CompressAmount equals the documented code and DecompressAmount inverts it; conversely every code whose decoding lies in the range re-encodes to itself. '
+         '(2) VARINT (serialize.h WriteVarInt/ReadVarInt/GetSizeOfVarInt, real SpanWriter/SpanReader): all uint32 and uint64 values by encoded length: bytes match the documented MSB-base-128-minus-one formula, size function, round trip; '
+         'any byte string of that length either is rejected as too large or re-encodes to exactly the bytes read (one-to-one). '
+         '(3) CompressScript / DecompressScript / GetSpecialScriptSize: every script of length 0,1,22..26,34..36,66..68 with all bytes symbolic: special forms recognised exactly (P2PKH, P2SH, P2PK compressed, P2PK uncompressed when fully valid), '
+         'compressed bytes equal the reference, decompression restores the identical script; every selector 0..3 with any payload decompresses to a script that compresses back to it. '
+         '(4) Coin::Serialize/Unserialize and TxInUndoFormatter with TxOutCompression/ScriptCompression/AmountCompression: record layout equals the documented layout (reference decoder), deserialization returns the identical coin and consumes the record, '
+         'for the listed (height, coinbase, amount-code) header tuples, symbolic amount and symbolic script bytes of each script kind. '
+         'Conditional on stubs: secp256k1 point validity/decompression (uncompressed keys), amount codec cut out of (4). Not covered: scripts longer than MAX_SCRIPT_SIZE (replaced by OP_RETURN on read), LevelDB key encoding, symbolic VARINT lengths inside whole records.')
+INT = ['cvc5int', 'cvc5int-di', 'cvc5int-bw']
+WIT = ['cvc5int', 'kissat', 'default']
+AUS = lambda v: '_Z14CompressAmountm.0:%d,_Z16DecompressAmountm.0:%d' % (v['VEXP'] + 2, v['VEXP'] + 2)
+AM = [{'VEXP': e} for e in (0, 1, 2, 3, 5, 6, 7, 8, 9)] + [{'VEXP': 4, 'MLO': 0, 'MHI': '0xffffffULL'}, {'VEXP': 4, 'MLO': '0x1000000ULL'}]
+AD_Q = [{'VEXP': 0, 'MLO': 0, 'MHI': '0xffffffffULL'}, {'VEXP': 0, 'MLO': '0x100000000ULL'}, {'VEXP': 8}, {'VEXP': 9}]
+AD_T = AD_Q + [{'VEXP': e} for e in (1, 2, 3, 4, 5, 6, 7)]
+ST_EC = ['CPubKey::IsFullyValid: unconstrained result (script harness) / true (record harness, KIND 4)', 'CPubKey::Decompress: returns the recorded key for the (x, parity) the harness compressed, fails otherwise (assumption: the curve has exactly one point with given x and parity)']
+ST_AM = ['record harness only: CompressAmount returns an arbitrary fixed code for the coin amount, DecompressAmount maps that code back (the codec is decided by amount / amount_dec)']
+LNK = ['compressor.cpp', 'script/script.cpp']
+
+
+def rec(kind, sl, hv, cb, cv, undo=False):
+    d = {'KIND': kind, 'SL': sl, 'HV': hv, 'CB': cb, 'CV': cv}
+    if undo: d['UNDO'] = 1
+    return d
+
+
+R_Q = [rec(0, 3, 0, 0, 0), rec(1, 25, 840000, 1, '0x3fffffffffffffffULL'), rec(0, 3, 64, 0, 128, True), rec(2, 23, '0x7fffffff', 1, 127), rec(3, 35, 0, 1, 16511, True),
+       rec(4, 67, 63, 1, 128), rec(0, 25, 1, 0, 1)]
+R_T = R_Q + [rec(4, 67, 8255, 0, 16512, True), rec(0, 0, 0, 0, 0), rec(0, 67, 200000, 0, 300, True), rec(0, 200, 1, 1, 2113663), rec(1, 25, 0, 0, 0, True), rec(2, 23, 127, 0, '0x204081020407fULL', True), rec(0, 35, 64, 1, 0)]
 HARNESSES = [
-    H('amount', 'amount.cpp', 'h_amount', link=['compressor.cpp'], variants=[{'VEXP': e} for e in range(10)], backends=INT, witness_backends=['default'], unwind=12, timeout=300, diff_runs=12),
-    H('amount_dec', 'amount.cpp', 'h_amount_dec', link=['compressor.cpp'], variants=[{'VEXP': e} for e in range(10)], backends=INT, witness_backends=['default'], unwind=12, timeout=300, diff_runs=12),
-    H('amount_zero', 'amount.cpp', 'h_amount_zero', link=['compressor.cpp'], backends=INT, witness_backends=['default'], unwind=12, timeout=300, diff_runs=12),
-    H('varint_write', 'amount.cpp', 'h_varint_write', variants=[{'VLEN': l, 'VBITS': 32} for l in range(1, 6)] + [{'VLEN': l, 'VBITS': 64} for l in (1, 2, 5, 9, 10)], backends=['default', 'kissat', 'z3'], unwind=14, timeout=300, diff_runs=12),
-    H('varint_read', 'amount.cpp', 'h_varint_read', variants=[{'VLEN': l, 'VBITS': 32} for l in range(1, 6)] + [{'VLEN': l, 'VBITS': 64} for l in (1, 9, 10)], backends=['default', 'kissat', 'z3'], unwind=14, timeout=300, diff_runs=12),
+    H('amount', 'amount.cpp', 'h_amount', link=['compressor.cpp'], variants=AM, backends=INT, witness_backends=WIT, unwind=12, unwindset=AUS, timeout=400, diff_runs=12,
+      functions=['CompressAmount', 'DecompressAmount (compressor.cpp)'], bounds='all amounts 0..2,100,000,000,000,000 (exponent e concrete per query, mantissa and last digit symbolic; e=4 split at mantissa 2^24)'),
+    H('amount_dec', 'amount.cpp', 'h_amount_dec', link=['compressor.cpp'], variants=AD_Q, tvariants=AD_T, backends=INT, witness_backends=WIT, unwind=12, unwindset=AUS, timeout=400, diff_runs=12,
+      bounds='all codes 1+10k+e whose decoding is <= 21e14; quick: e in {0,8,9}, thorough: e = 0..9'),
+    H('amount_zero', 'amount.cpp', 'h_amount_zero', link=['compressor.cpp'], backends=INT + ['default'], witness_backends=WIT, unwind=12, timeout=300, diff_runs=12, bounds='amount 0 <-> code 0; no other amount <= 21e14 has code 0'),
+    H('varint_write', 'amount.cpp', 'h_varint_write', variants=[{'VLEN': l, 'VBITS': 32} for l in (1, 2, 5)] + [{'VLEN': l, 'VBITS': 64} for l in (1, 9, 10)],
+      tvariants=[{'VLEN': l, 'VBITS': 32} for l in range(1, 6)] + [{'VLEN': l, 'VBITS': 64} for l in range(1, 11)], backends=['default', 'kissat'], unwind=14, timeout=300, diff_runs=12,
+      functions=['WriteVarInt', 'ReadVarInt', 'GetSizeOfVarInt', 'VarIntFormatter (serialize.h)', 'SpanWriter', 'SpanReader (streams.h)'], bounds='all values whose encoding has VLEN bytes; quick: uint32 lengths 1,2,5 and uint64 lengths 1,9,10; thorough: every length (i.e. all uint32 and all uint64 values)'),
+    H('varint_read', 'amount.cpp', 'h_varint_read', variants=[{'VLEN': l, 'VBITS': 32} for l in (1, 5)] + [{'VLEN': l, 'VBITS': 64} for l in (9, 10)],
+      tvariants=[{'VLEN': l, 'VBITS': 32} for l in range(1, 6)] + [{'VLEN': l, 'VBITS': 64} for l in range(1, 11)], backends=['default', 'kissat'], unwind=14, timeout=300, diff_runs=12,
+      bounds='all well-formed byte strings of VLEN bytes (continuation bits set on all but the last)'),
+    H('script_roundtrip', 'script.cpp', 'h_script_roundtrip', link=LNK, variants=[{'SL': l} for l in (0, 23, 24, 25, 35, 36, 67, 68)], tvariants=[{'SL': l} for l in (0, 1, 22, 23, 24, 25, 26, 34, 35, 36, 66, 67, 68)],
+      backends=['default', 'kissat'], unwind=70, memunwind=72, timeout=300, diff_runs=12, stubs=ST_EC,
+      functions=['CompressScript', 'DecompressScript', 'GetSpecialScriptSize', 'IsToKeyID/IsToScriptID/IsToPubKey (compressor.cpp)', 'CPubKey::Set', 'prevector/CScript'], bounds='script lengths listed, every byte symbolic'),
+    H('script_decode', 'script.cpp', 'h_script_decode', link=LNK, variants=[{'SEL': k} for k in range(6)], backends=['default', 'kissat'], unwind=70, memunwind=72, timeout=300, diff_runs=12, stubs=ST_EC,
+      bounds='selectors 0..5, every payload byte symbolic'),
+    H('record', 'coin.cpp', 'h_record', link=LNK, variants=R_Q, tvariants=R_T, backends=['default', 'kissat'], unwind=12, memunwind=240, unwindset=','.join('h_record.%d:260' % i for i in range(24)), timeout=400, diff_runs=12,
+      stubs=ST_EC + ST_AM, functions=['Coin::Serialize/Unserialize (coins.h)', 'TxInUndoFormatter (undo.h)', 'TxOutCompression', 'ScriptCompression', 'AmountCompression (compressor.h)', 'VARINT'],
+      bounds='header tuples (kind, script length, height, coinbase, amount code, undo?) quick %s; amount symbolic 0..21e14; script bytes symbolic (first 8 and last 34)' % [tuple(v.values()) for v in R_Q]),
 ]
